@@ -142,10 +142,13 @@ def emit_set(t, lv, lines):
 
 
 def show_expr(t, lv, guest):
-    """C++ expression (std::string) printing lvalue lv (tainted on the application side, native on the guest side)"""
+    """C++ expression (std::string) printing lvalue lv: guest=True native guest struct, False tainted application struct,
+    "plain" unwrapped application struct"""
     if t[0] in ("int", "enum", "float", "double"):
         return "show_val(%s)" % (lv if guest else lv + ".UNSAFE_unverified()")
     if t[0] in ("ptr", "fn"):
+        if guest == "plain":
+            return "std::to_string(reinterpret_cast<uintptr_t>(%s))" % lv
         return "show_val(%s)" % lv if guest else "std::to_string(reinterpret_cast<uintptr_t>(%s.UNSAFE_unverified()))" % lv
     if t[0] == "arr":
         return 'std::string("(") + ' + ' + "," + '.join(show_expr(t[2], "%s[%d]" % (lv, j), guest) for j in range(t[1])) + ' + ")"'
@@ -179,6 +182,7 @@ def emit(decls, progs, cfg):
         out.append("static void set_%d(sandbox_t& sb, rlbox::tainted<%s, Sbx>& t, const toks_t& v) {\n  size_t n = 0;\n  %s\n}" % (i, nm, "\n  ".join(lines)))
         out.append("static std::string show_app_%d(rlbox::tainted<%s, Sbx>& t) { return %s; }" % (i, nm, show_expr(t, "t", False)))
         out.append("static std::string show_guest_%d(const G%s& t) { return %s; }" % (i, nm, show_expr(t, "t", True)))
+        out.append("static std::string show_plain_%d(const %s& t) { return %s; }" % (i, nm, show_expr(t, "t", "plain")))
         out.append("%s echo%d(%s);" % (nm, i, nm))
         out.append("static G%s guest_echo%d(G%s s) { g_calls++; g_glog = show_guest_%d(s); return s; }" % (nm, i, nm, i))
         offs = ' + "," + '.join("std::to_string(reinterpret_cast<uintptr_t>((&(%s)).UNSAFE_unverified()) - b)" % first_leaf_path(f, "p->f%d" % j)
@@ -199,11 +203,16 @@ def emit(decls, progs, cfg):
     auto g = reinterpret_cast<const G%s*>(p.UNSAFE_unverified());
     std::string out = "G=" + show_guest_%d(*g);
     rlbox::tainted<%s, Sbx> back = *p;
-    return out + " A=" + show_app_%d(back);
+    out += " A=" + show_app_%d(back);
+    // the other whole-struct read-back paths: unwrap of the dereferenced struct, copy_and_verify on the pointer
+    auto raw = (*p).UNSAFE_unverified();
+    out += " U=" + show_plain_%d(raw);
+    out += " C=" + p.copy_and_verify([](std::unique_ptr<rlbox::tainted<%s, Sbx>> v) { return show_app_%d(*v); });
+    return out;
   }
   auto r = sb.invoke_sandbox_function(echo%d, t);
   return "G=" + g_glog + " A=" + show_app_%d(r);
-}""" % (i, nm, nm, offs, nm, goffs, nm, i, nm, nm, i, nm, i, i, i))
+}""" % (i, nm, nm, offs, nm, goffs, nm, i, nm, nm, i, nm, i, i, nm, i, i, i))
     out.append("using sprog_fn = std::string (*)(sandbox_t&, const std::string&, const toks_t&);")
     out.append("static sprog_fn g_sprogs[] = {%s};" % ", ".join("prog_%d" % i for i in range(len(progs))))
     out.append(r'''
